@@ -90,6 +90,9 @@ pub fn run(rep: &mut Report, thorough: bool) {
         let nsw: u64 = if thorough { 8 } else { 2 };
         let dims = [nsw, 2, 65536];
         let key = cfg.key;
+        let mut big = stun_attr(0x8022, &[b'x'; 252]);
+        big.extend(stun_attr(0x0003, &[0, 0, 0, 2]));
+        let stun_big = stun_magic(&big, &ID12);
         let opts = RunOpts::new(&format!("tcp-data-ports-{}", tag)).stateful().chunk(128);
         engine::run(
             &cfg,
@@ -101,7 +104,10 @@ pub fn run(rep: &mut Report, thorough: bool) {
                 let (sp, dp) = port_value(s, d[2]);
                 let f = flow(d[1] == 1, sp, dp);
                 let c = cookie_guess(key, &f.cip, &f.sip, sp, dp);
-                vec![Cmd::Frame(f.tcp(100, 0, F_SYN, b"")), Cmd::Frame(f.tcp(101, c.wrapping_add(1), F_PSH | F_ACK, b"GET / HTTP/1.1\r\n\r\n"))]
+                // alternate between an HTTP request and a STUN change-port request (the only STUN form
+                // that is identified over TCP: magic cookie, length >= 256)
+                let pl: &[u8] = if d[2] % 2 == 0 { b"GET / HTTP/1.1\r\n\r\n" } else { &stun_big };
+                vec![Cmd::Frame(f.tcp(100, 0, F_SYN, b"")), Cmd::Frame(f.tcp(101, c.wrapping_add(1), F_PSH | F_ACK, pl))]
             },
             |it: &Item, s: &mut Sink| {
                 if it.outs.len() == 3 && it.outs[2].reply.is_some() {
